@@ -9,6 +9,7 @@ CONSTANT RoleMenu <- RM0
 CONSTANT DocMenu <- DMa1
 CONSTANT Lims <- L0
 CONSTANT MaxSteps = 4
+CONSTANT Thin = 1
 CONSTANT PageGap = FALSE
 SPECIFICATION Spec
 INVARIANT BehaviourExport
